@@ -41,7 +41,7 @@ def build():
         "\nrequire github.com/comdex-official/comdex v0.0.0\n\nreplace github.com/comdex-official/comdex => %s\n" % REPO)
     shutil.copyfile(os.path.join(REPO, "go.sum"), os.path.join(h, "go.sum"))
     p = subprocess.run(["go", "test", "-c", "-tags", "verif", "-cover", "-covermode=set",
-                        "-coverpkg=%sx/...,%stypes/...,%sapp/..." % (MOD, MOD, MOD), "-o", BIN, "."], cwd=h, env=goenv(),
+                        "-coverpkg=%sx/...,%stypes/..." % (MOD, MOD), "-o", BIN, "."], cwd=h, env=goenv(),
                        stdout=subprocess.PIPE, stderr=subprocess.STDOUT, text=True)
     if p.returncode != 0:
         print(p.stdout[-3000:])
